@@ -140,9 +140,9 @@ def run(tier):
     t0 = time.time()
     violations, mismatch, known = [], [], []
     if tier == "quick":
-        bounds = ("{1, 2}", "{3, 40, 400}", 2)
+        bounds = ("{1, 2}", "{3, 40, 1000}", 2)
     else:
-        bounds = ("{1, 2, 3}", "{3, 40, 400}", 3)
+        bounds = ("{1, 2, 3}", "{3, 40, 1000}", 3)
     cfgp = os.path.join(vlib.scratch(), "Members.cfg")
     open(cfgp, "w").write(cfg_text("Spec", *bounds))
     r = vlib.run_tlc("MCMembers.tla", cfgp, workers=8, timeout=2400, coverage=(tier == "thorough"))
